@@ -1,5 +1,5 @@
 //@unit shrex
-//@serves C09
+//@serves C09 C16
 use vstd::prelude::*;
 verus! {
 //@src node/src/p2p/shrex/codec.rs
@@ -57,7 +57,7 @@ pub open spec fn chunks_of(raw: Seq<u8>, n: int) -> Seq<Seq<u8>>
 }
 
 //@fn impl ResponseCodec for ExtendedDataSquare :: decode_and_verify
-//@props C09
+//@props C09 C16
 fn decode_and_verify(
     raw_data: &[u8],
     _req: &EdsId,
